@@ -141,7 +141,15 @@ class Sym:
                 return ("cast", ck.split("(")[0], a, rv["to"])
             return ("cast", ck, a, rv["to"])
         if k == "bin":
-            return ("bin", rv["op"], self.operand(rv["a"], depth), self.operand(rv["b"], depth))
+            a, b = self.operand(rv["a"], depth), self.operand(rv["b"], depth)
+            op = rv["op"]
+            # constants combined at run time only because MIR is unoptimised (`WORD_LEN - 1`): fold when exact
+            if a[0] == "c" and b[0] == "c" and isinstance(a[1], int) and isinstance(b[1], int) and not op.endswith("WithOverflow"):
+                base = op.replace("Unchecked", "")
+                v = {"Add": a[1] + b[1], "Sub": a[1] - b[1], "Mul": a[1] * b[1]}.get(base)
+                if v is not None and 0 <= v < (1 << 64):
+                    return ("c", v)
+            return ("bin", op, a, b)
         if k == "un":
             return ("un", rv["op"], self.operand(rv["a"], depth))
         if k == "discr":
@@ -168,7 +176,15 @@ class Sym:
                     name = pr["name"]
                     if e[0] == "bin" and e[1].endswith("WithOverflow"):
                         if pr["f"] == 0:
-                            e = ("bin", e[1][: -len("WithOverflow")], e[2], e[3])
+                            base = e[1][: -len("WithOverflow")]
+                            a, b = e[2], e[3]
+                            v = None
+                            if a[0] == "c" and b[0] == "c" and isinstance(a[1], int) and isinstance(b[1], int):
+                                v = {"Add": a[1] + b[1], "Sub": a[1] - b[1], "Mul": a[1] * b[1]}.get(base)
+                            if v is not None and 0 <= v < (1 << 64):
+                                e = ("c", v)
+                                continue
+                            e = ("bin", base, e[2], e[3])
                         else:
                             e = ("ovf", e[1][: -len("WithOverflow")], e[2], e[3])
                         continue
